@@ -10,6 +10,7 @@ SERVER_CERTS = ["rsa1", "rsa2", "rsa3", "rsa4", "ed1", "ed2"]
 BAD_CERTS = ["bad1", "bad2"]       # OpenSSL serves them, cryptography cannot parse them
 EC_CERTS = ["ec1"]
 CLIENT_CERTS = ["cli_rsa1", "cli_rsa2", "cli_ed1", "cli_same1", "cli_same2"]   # same1/2: same subject
+CLONE_CERTS = ["clone_a", "clone_b"]   # same issuer, subject and serial number, different keys
 EXPIRED_CERTS = ["expired1"]       # validity 2000-2001; OpenSSL serves it, TOFU pins by fingerprint
 
 
